@@ -27,3 +27,15 @@ for b in blocks:
                    "run_in_batch": batch, "batch_members": members, "suite_passes_with_batch": suite,
                    "checks_run": results, "all_20_checks_silent": silent, "remarks": notes[:8]}, open(dst + "/meta.json", "w"), indent=1)
         print(mid, batch, "silent" if silent else "NOT SILENT", len(results))
+
+# applicability to the final tree
+import subprocess, glob
+head = subprocess.run(["git", "-C", "/repo", "rev-parse", "--short", "HEAD"], capture_output=True, text=True).stdout.strip()
+for f in sorted(glob.glob("/verif/refactors/*/meta.json")):
+    m = json.load(open(f))
+    d = os.path.dirname(f)
+    ok = subprocess.run(["git", "-C", "/repo", "apply", "--check", d + "/patch.diff"], capture_output=True).returncode == 0
+    m["applies_to"] = {"written_and_run_against": "4594d2d (the repaired tree before the last two fix: commits)" if m["run_in_batch"] not in ("b13", "b14") else head,
+                       "repo_head": head, "git_apply_check_on_repo_head": ok,
+                       "note": "the last two fix: commits (4658863, bc19a71) rewrote parts of struct.go; refactors of those lines apply to 4594d2d only (two were rebased and run again, batches b13/b14)"}
+    json.dump(m, open(f, "w"), indent=1)
